@@ -5,7 +5,15 @@ suite still passes, the demonstration exits 1 with the change and 0 without it."
 import json, os, shutil, subprocess, sys
 pid = sys.argv[1]
 src = '/tmp/seed/%s-out' % pid
+offset = 0
+if '--round2' in sys.argv:          # second wave: /tmp/seed/<ID>-out2/ -> seeded/<ID>-s4..6
+    src, offset = '/tmp/seed/%s-out2' % pid, 3
 wt = '/tmp/seedverify'
+head = subprocess.run(['git', '-C', '/repo', 'rev-parse', 'HEAD'], capture_output=True, text=True, check=True).stdout.strip()
+if not os.path.isdir(wt):
+    subprocess.run(['git', '-C', '/repo', 'worktree', 'add', '--detach', '-q', wt, head], check=True)
+subprocess.run(['git', '-C', wt, 'checkout', '-q', '--', '.'], check=True)
+subprocess.run(['git', '-C', wt, 'checkout', '-q', '--detach', head], check=True)
 for i in (1, 2, 3):
     diff = os.path.join(src, 'change%d.diff' % i)
     if not os.path.exists(diff):
@@ -23,7 +31,7 @@ for i in (1, 2, 3):
     ok = clean == 0 and mut == 1 and base.returncode == 0
     print(pid, i, 'demo clean=%d mutated=%d pinned-suite=%s -> %s' % (clean, mut, base.stdout.strip().splitlines()[0] if base.stdout.strip() else base.stderr[-100:], 'KEEP' if ok else 'REJECT'))
     if ok:
-        d = '/verif/seeded/%s-s%d' % (pid, i)
+        d = '/verif/seeded/%s-s%d' % (pid, i + offset)
         os.makedirs(d, exist_ok=True)
         shutil.copy(diff, os.path.join(d, 'patch.diff'))
         shutil.copy(demo, os.path.join(d, 'demo.py'))
